@@ -4,12 +4,15 @@
    ScalImpl.v mirrors two variants of the negative-scale arithmetic (fx_neg = false: x / pow(10,scale), the code before
    proposed_fixes/C08_remaining.diff; fx_neg = true: x * pow(10,-scale), after it); lib/c08.py probes which one the tree
    implements.  Theorems quantified over fx_neg hold for both.
-   The full claim about the library's branchy float encoder is ScalImplProof.C08_full_statement; what is proved of it is
-   C08_encode_float_eq_raw_partial (finite domain) and C08_encode_never_wider; C08_encode_exact_physical_refuted shows where
-   the fx_neg = false code departs from the property. *)
+   The full claim about the library's branchy float encoder is ScalImplProof.C08_full_statement.  For the variant the library
+   implements (fx_neg = true) it is PROVED: C08_encode_decode_roundtrip (ScalFull.v, error analysis of every branch), together
+   with the agreement of the encoder with the specification on every double that is not within 2^-12 unit of a rounding tie
+   (C08_encode_in_range_eq_quant, C08_encode_exact_range_eq_raw, C08_encode_out_of_range_eq_raw, C08_encode_eq_raw_or_quant).
+   For fx_neg = false only the finite instance C08_encode_float_eq_raw_partial is proved, and
+   C08_encode_exact_physical_refuted shows where that code departed from the property. *)
 From Coq Require Import ZArith QArith Reals List.
 From Flocq Require Import Core BinarySingleNaN.
-From V Require Import Fm94 GenTables ScalSpec ScalSpecProof ScalImpl ScalImplProof ScalPartial.
+From V Require Import Fm94 GenTables ScalSpec ScalSpecProof ScalImpl ScalImplProof ScalPartial ScalFull.
 Local Open Scope Z_scope.
 
 (* ---------------------------------------------------------------- the regulation's arithmetic, unbounded in s, ref, w, i *)
@@ -161,6 +164,97 @@ Theorem C08_encode_never_wider : forall pow10 fx_neg desc en f,
 Proof. exact encode_never_wider. Qed.
 Print Assumptions C08_encode_never_wider.
 
+(* ---------------------------------------------------------------- the library's encoder (bufr_cvt_dval_to_i64), variant fx_neg = true:
+   general correctness.  enc_fmin / enc_fmax are the two range limits exactly as the function computes them;
+   tie_margin = 1/2 - 2^-12.  Side conditions: width 1..32, reference an int, scale -22..22, pow(10,k) exact for 0<=k<=22. *)
+
+(* every representable raw value survives the library's decode followed by the library's encode *)
+Theorem C08_encode_decode_roundtrip : forall pow10, pow10_contract pow10 -> forall desc en i,
+  -22 <= e_scale en <= 22 -> 1 <= e_nbits en <= 32 -> - 2 ^ 31 <= e_ref en < 2 ^ 31 ->
+  0 <= i <= 2 ^ e_nbits en - 2 ->
+  cvt_dval_to_i64 pow10 true desc en (cvt_i64_to_dval pow10 true en i) = i.
+Proof. exact C08_full_statement_exact_variant. Qed.
+Print Assumptions C08_encode_decode_roundtrip.
+
+(* any non-missing double v that passes the two range tests and whose scaled value v*10^scale is within 1/2 - 2^-12 of an
+   integer n (i.e. not within 2^-12 of a tie) is encoded as n - reference, which is a valid raw value below all-ones *)
+Theorem C08_encode_in_range : forall pow10, pow10_contract pow10 -> forall desc en,
+  -22 <= e_scale en <= 22 -> 1 <= e_nbits en <= 32 -> - 2 ^ 31 <= e_ref en < 2 ^ 31 ->
+  forall v n,
+  is_missing_double v = false ->
+  bgt v (enc_fmax pow10 en) = false -> blt v (enc_fmin pow10 en) = false ->
+  (Rabs (B2R v * bpow radix10 (e_scale en) - IZR n) <= tie_margin)%R ->
+  cvt_dval_to_i64 pow10 true desc en v = n - e_ref en /\ 0 <= n - e_ref en <= 2 ^ e_nbits en - 2.
+Proof. exact encode_in_range. Qed.
+Print Assumptions C08_encode_in_range.
+
+(* ... which is the specification's quantisation of v *)
+Theorem C08_encode_in_range_eq_quant : forall pow10, pow10_contract pow10 -> forall desc en,
+  -22 <= e_scale en <= 22 -> 1 <= e_nbits en <= 32 -> - 2 ^ 31 <= e_ref en < 2 ^ 31 ->
+  forall v n,
+  is_missing_double v = false ->
+  bgt v (enc_fmax pow10 en) = false -> blt v (enc_fmin pow10 en) = false ->
+  (Rabs (B2R v * bpow radix10 (e_scale en) - IZR n) <= tie_margin)%R ->
+  cvt_dval_to_i64 pow10 true desc en v = quantR (e_scale en) (e_ref en) (e_nbits en) (B2R v).
+Proof. exact encode_in_range_eq_quant. Qed.
+Print Assumptions C08_encode_in_range_eq_quant.
+
+(* inside the exact representable range [phys 0, phys (2^w-2)] the library's encoder IS the specification's encoder *)
+Theorem C08_encode_exact_range_eq_raw : forall pow10, pow10_contract pow10 -> forall desc en,
+  -22 <= e_scale en <= 22 -> 1 <= e_nbits en <= 32 -> - 2 ^ 31 <= e_ref en < 2 ^ 31 ->
+  forall v n,
+  is_missing_double v = false ->
+  (Rabs (B2R v * bpow radix10 (e_scale en) - IZR n) <= tie_margin)%R ->
+  (physR (e_scale en) (e_ref en) 0 <= B2R v <= physR (e_scale en) (e_ref en) (2 ^ e_nbits en - 2))%R ->
+  cvt_dval_to_i64 pow10 true desc en v = rawR (e_scale en) (e_ref en) (e_nbits en) (B2R v).
+Proof. exact encode_exact_range_eq_raw. Qed.
+Print Assumptions C08_encode_exact_range_eq_raw.
+
+(* the missing double, and every double failing one of the two range tests, is stored as all ones *)
+Theorem C08_encode_out_of_range : forall pow10 desc en,
+  1 <= e_nbits en <= 32 ->
+  forall v,
+  is_missing_double v = true \/ bgt v (enc_fmax pow10 en) = true \/ blt v (enc_fmin pow10 en) = true ->
+  cvt_dval_to_i64 pow10 true desc en v = 2 ^ e_nbits en - 1.
+Proof. exact encode_out_of_range. Qed.
+Print Assumptions C08_encode_out_of_range.
+
+(* a double failing a range test IS outside the exact representable range (the limits are correctly rounded) *)
+Theorem C08_above_fmax_is_above_range : forall pow10, pow10_contract pow10 -> forall en,
+  -22 <= e_scale en <= 22 -> 1 <= e_nbits en <= 32 -> - 2 ^ 31 <= e_ref en < 2 ^ 31 ->
+  forall v, is_finite v = true -> bgt v (enc_fmax pow10 en) = true ->
+  (physR (e_scale en) (e_ref en) (2 ^ e_nbits en - 2) < B2R v)%R.
+Proof. exact above_fmax_is_above_range. Qed.
+Print Assumptions C08_above_fmax_is_above_range.
+
+Theorem C08_below_fmin_is_below_range : forall pow10, pow10_contract pow10 -> forall en,
+  -22 <= e_scale en <= 22 -> - 2 ^ 31 <= e_ref en < 2 ^ 31 ->
+  forall v, is_finite v = true -> blt v (enc_fmin pow10 en) = true ->
+  (B2R v < physR (e_scale en) (e_ref en) 0)%R.
+Proof. exact below_fmin_is_below_range. Qed.
+Print Assumptions C08_below_fmin_is_below_range.
+
+(* hence it is stored as the specification stores it: missing *)
+Theorem C08_encode_out_of_range_eq_raw : forall pow10, pow10_contract pow10 -> forall desc en,
+  -22 <= e_scale en <= 22 -> 1 <= e_nbits en <= 32 -> - 2 ^ 31 <= e_ref en < 2 ^ 31 ->
+  forall v, is_finite v = true ->
+  bgt v (enc_fmax pow10 en) = true \/ blt v (enc_fmin pow10 en) = true ->
+  cvt_dval_to_i64 pow10 true desc en v = rawR (e_scale en) (e_ref en) (e_nbits en) (B2R v).
+Proof. exact encode_out_of_range_eq_raw. Qed.
+Print Assumptions C08_encode_out_of_range_eq_raw.
+
+(* on every non-missing double away from ties the result is the strict (rawR) or the round-then-test (quantR) reading of the
+   specification; the two differ only for values less than half a unit outside the extremes *)
+Theorem C08_encode_eq_raw_or_quant : forall pow10, pow10_contract pow10 -> forall desc en,
+  -22 <= e_scale en <= 22 -> 1 <= e_nbits en <= 32 -> - 2 ^ 31 <= e_ref en < 2 ^ 31 ->
+  forall v n,
+  is_missing_double v = false ->
+  (Rabs (B2R v * bpow radix10 (e_scale en) - IZR n) <= tie_margin)%R ->
+  cvt_dval_to_i64 pow10 true desc en v = rawR (e_scale en) (e_ref en) (e_nbits en) (B2R v) \/
+  cvt_dval_to_i64 pow10 true desc en v = quantR (e_scale en) (e_ref en) (e_nbits en) (B2R v).
+Proof. exact encode_eq_raw_or_quant. Qed.
+Print Assumptions C08_encode_eq_raw_or_quant.
+
 (* ---------------------------------------------------------------- the library's encoder (bufr_cvt_dval_to_i64): finite instance *)
 
 (* for every numeric/code/flag entry (width 1..32) of the five shipped Table B versions and every raw value of raw_grid
@@ -213,4 +307,6 @@ Proof. reflexivity. Qed.
 Example C08_ex_grid : In 4094 (raw_grid 1 (-2732) 12).
 Proof. vm_compute. tauto. Qed.
 Example C08_ex_in_scope : in_scope (mkB UNum 1 (-2732) 12) = true.
+Proof. reflexivity. Qed.
+Example C08_ex_tie_margin : tie_margin = (/ 2 - / 4096)%R.
 Proof. reflexivity. Qed.
